@@ -125,6 +125,13 @@ def azimuth_processing(ctx, rng):
             # under every policy (the policy is applied inside every single-azimuth run)
             dts = [float(rng.choice([dt, float(rng.choice(pg.DTS))])) for _ in range(nrec)]
             policy = pg.POLICIES[int(rng.integers(0, 3))]
+            if rng.random() < 0.6:
+                # two time steps INTERLEAVED (a, b, a[, b]): per-record quantities computed once for all azimuths must be matched to the records, not to the
+                # order in which the time-step groups are processed
+                other = float(rng.choice([d for d in pg.DTS if d != dt]))
+                nrec = int(rng.integers(3, 5))
+                dts = [dt, other, dt, other][:nrec]
+                policy = pg.POLICIES[0]
         recs = [pg.gen_record(rng, n=int(rng.integers(16, 120 if fam != "az" else 36)), dt=d, deg=pick_angle(rng)) for d in dts]
         max_n = max(len(r["vt"]) for r in recs)
         sm = pg.gen_smoothing(rng, max_n if fam != "az" else 32768, dts, op=str(rng.choice(["konno_and_ohmachi", "parzen", "linear_triangular", "log_rectangular"])), nfc=(6 if fam == "az" else None))
